@@ -88,7 +88,7 @@ Proof. vm_compute. reflexivity. Qed.
    Added in build session 4 (statements re-stated from the proof files by harness tooling; each is closed by
    exact). *)
 From Coquelicot Require Import Coquelicot.
-From SplipyModel Require Import Model.Catalogue Proofs.CatalogueProofs Model.Orient Model.Handed Proofs.HandedProofs.
+From SplipyModel Require Import Model.Catalogue Proofs.CatalogueProofs Model.Orient Model.Handed Proofs.HandedProofs Model.Matches Proofs.MatchesProofs.
 Theorem C17_add_idempotent :
   forall (c : catalogue) (p : patch), valid_patch p -> cat_add (cat_add c p) p = cat_add c p.
 Proof. exact @add_idempotent. Qed.
@@ -459,4 +459,147 @@ Theorem C17_cube_executable_Q :
             eqb (right_hand2 0.001%Q (nth 0 ds []) (nth 1 ds [])) (negb (oparity o))) A2 = true.
 Proof. exact @cube_executable_Q. Qed.
 Print Assumptions C17_cube_executable_Q.
+
+Theorem C17_basis_matches_spec :
+  forall (tol : Rdefinitions.RbaseSymbolsImpl.R) (b1 b2 : basis Rdefinitions.RbaseSymbolsImpl.R) (rev : bool),
+         basis_matches tol b1 b2 rev = true <->
+         b_order b1 = b_order b2 /\
+         b_per1 b1 = b_per1 b2 /\
+         DT (b_knots b1) <> Rdefinitions.IZR 0 /\
+         DT (b_knots b2) <> Rdefinitions.IZR 0 /\
+         length (b_knots b1) = length (b_knots b2) /\
+         (forall i : nat,
+          i < length (b_knots b1) ->
+          Rdefinitions.Rle
+            (Rbasic_fun.Rabs
+               (Rdefinitions.Rminus (nth i (nk1 (b_knots b1) rev) (Rdefinitions.IZR 0))
+                  (nth i (NK (b_knots b2)) (Rdefinitions.IZR 0))))
+            (Rdefinitions.RbaseSymbolsImpl.Rplus tol
+               (Rdefinitions.RbaseSymbolsImpl.Rmult (Rdefinitions.Rdiv (Rdefinitions.IZR 1) (Rdefinitions.IZR 100000))
+                  (Rbasic_fun.Rabs (nth i (NK (b_knots b2)) (Rdefinitions.IZR 0)))))).
+Proof. exact @basis_matches_spec. Qed.
+Print Assumptions C17_basis_matches_spec.
+
+Theorem C17_matches_degenerate :
+  forall (rtol tol : Rdefinitions.RbaseSymbolsImpl.R) (b1 b2 : basis Rdefinitions.RbaseSymbolsImpl.R)
+           (rev : bool),
+         DT (b_knots b1) = Rdefinitions.IZR 0 \/ DT (b_knots b2) = Rdefinitions.IZR 0 ->
+         basis_matches_gen rtol tol b1 b2 rev = false.
+Proof. exact @matches_degenerate. Qed.
+Print Assumptions C17_matches_degenerate.
+
+Theorem C17_matches_affine_invariant :
+  forall (rtol tol a1 c1 a2 c2 : Rdefinitions.RbaseSymbolsImpl.R)
+           (b1 b2 : basis Rdefinitions.RbaseSymbolsImpl.R) (rev : bool),
+         Rdefinitions.Rgt a1 (Rdefinitions.IZR 0) ->
+         Rdefinitions.Rgt a2 (Rdefinitions.IZR 0) ->
+         basis_matches_gen rtol tol
+           (Reparam.basis_shift b1
+              (fun x : Rdefinitions.RbaseSymbolsImpl.R =>
+               Rdefinitions.RbaseSymbolsImpl.Rplus (Rdefinitions.RbaseSymbolsImpl.Rmult a1 x) c1))
+           (Reparam.basis_shift b2
+              (fun x : Rdefinitions.RbaseSymbolsImpl.R =>
+               Rdefinitions.RbaseSymbolsImpl.Rplus (Rdefinitions.RbaseSymbolsImpl.Rmult a2 x) c2)) rev =
+         basis_matches_gen rtol tol b1 b2 rev.
+Proof. exact @matches_affine_invariant. Qed.
+Print Assumptions C17_matches_affine_invariant.
+
+Theorem C17_basis_matches_refl :
+  forall (tol : Rdefinitions.RbaseSymbolsImpl.R) (b : basis Rdefinitions.RbaseSymbolsImpl.R),
+         Rdefinitions.Rle (Rdefinitions.IZR 0) tol ->
+         DT (b_knots b) <> Rdefinitions.IZR 0 -> basis_matches tol b b false = true.
+Proof. exact @basis_matches_refl. Qed.
+Print Assumptions C17_basis_matches_refl.
+
+Theorem C17_matches_sym :
+  forall (tol : Rdefinitions.RbaseSymbolsImpl.R) (b1 b2 : basis Rdefinitions.RbaseSymbolsImpl.R) (rev : bool),
+         basis_matches_gen (Rdefinitions.IZR 0) tol b1 b2 rev = basis_matches_gen (Rdefinitions.IZR 0) tol b2 b1 rev.
+Proof. exact @matches_sym. Qed.
+Print Assumptions C17_matches_sym.
+
+Theorem C17_matches_reverse_flag_l :
+  forall (rtol tol : Rdefinitions.RbaseSymbolsImpl.R) (b1 b2 : basis Rdefinitions.RbaseSymbolsImpl.R),
+         b_start b1 <> b_end b1 ->
+         basis_matches_gen rtol tol b1 b2 true = basis_matches_gen rtol tol (Reparam.basis_reverse b1) b2 false.
+Proof. exact @matches_reverse_flag_l. Qed.
+Print Assumptions C17_matches_reverse_flag_l.
+
+Theorem C17_matches_separated :
+  forall (rtol tol : Rdefinitions.RbaseSymbolsImpl.R) (b1 b2 : basis Rdefinitions.RbaseSymbolsImpl.R)
+           (rev : bool) (i : nat),
+         i < length (b_knots b1) ->
+         Rdefinitions.Rgt
+           (Rbasic_fun.Rabs
+              (Rdefinitions.Rminus (nth i (nk1 (b_knots b1) rev) (Rdefinitions.IZR 0))
+                 (nth i (NK (b_knots b2)) (Rdefinitions.IZR 0))))
+           (Rdefinitions.RbaseSymbolsImpl.Rplus tol
+              (Rdefinitions.RbaseSymbolsImpl.Rmult rtol
+                 (Rbasic_fun.Rabs (nth i (NK (b_knots b2)) (Rdefinitions.IZR 0))))) ->
+         basis_matches_gen rtol tol b1 b2 rev = false.
+Proof. exact @matches_separated. Qed.
+Print Assumptions C17_matches_separated.
+
+Theorem C17_matches_moved_knot_iff :
+  forall (l r : list Rdefinitions.RbaseSymbolsImpl.R) (x delta : Rdefinitions.RbaseSymbolsImpl.R),
+         l <> [] ->
+         r <> [] ->
+         forall (rtol tol : Rdefinitions.RbaseSymbolsImpl.R) (p per : nat),
+         Rdefinitions.Rminus (last r (Rdefinitions.IZR 0)) (hd (Rdefinitions.IZR 0) l) <> Rdefinitions.IZR 0 ->
+         Rdefinitions.Rle (Rdefinitions.IZR 0) tol ->
+         Rdefinitions.Rle (Rdefinitions.IZR 0) rtol ->
+         basis_matches_gen rtol tol {| b_order := p; b_knots := l ++ x :: r; b_per1 := per |}
+           {| b_order := p; b_knots := l ++ Rdefinitions.RbaseSymbolsImpl.Rplus x delta :: r; b_per1 := per |} false =
+         true <->
+         Rdefinitions.Rle
+           (Rbasic_fun.Rabs
+              (Rdefinitions.Rdiv delta (Rdefinitions.Rminus (last r (Rdefinitions.IZR 0)) (hd (Rdefinitions.IZR 0) l))))
+           (Rdefinitions.RbaseSymbolsImpl.Rplus tol
+              (Rdefinitions.RbaseSymbolsImpl.Rmult rtol
+                 (Rbasic_fun.Rabs
+                    (Rdefinitions.Rdiv
+                       (Rdefinitions.Rminus (Rdefinitions.RbaseSymbolsImpl.Rplus x delta) (hd (Rdefinitions.IZR 0) l))
+                       (Rdefinitions.Rminus (last r (Rdefinitions.IZR 0)) (hd (Rdefinitions.IZR 0) l)))))).
+Proof. exact @matches_moved_knot_iff. Qed.
+Print Assumptions C17_matches_moved_knot_iff.
+
+Theorem C17_matches_moved_knot_reported :
+  forall (l r : list Rdefinitions.RbaseSymbolsImpl.R) (x delta : Rdefinitions.RbaseSymbolsImpl.R),
+         l <> [] ->
+         r <> [] ->
+         forall (rtol tol : Rdefinitions.RbaseSymbolsImpl.R) (p per : nat),
+         Rdefinitions.RbaseSymbolsImpl.Rlt (Rdefinitions.IZR 0)
+           (Rdefinitions.Rminus (last r (Rdefinitions.IZR 0)) (hd (Rdefinitions.IZR 0) l)) ->
+         Rdefinitions.Rle (Rdefinitions.IZR 0) tol ->
+         Rdefinitions.Rle (Rdefinitions.IZR 0) rtol ->
+         Rdefinitions.Rle (hd (Rdefinitions.IZR 0) l) (Rdefinitions.RbaseSymbolsImpl.Rplus x delta) /\
+         Rdefinitions.Rle (Rdefinitions.RbaseSymbolsImpl.Rplus x delta) (last r (Rdefinitions.IZR 0)) ->
+         Rdefinitions.Rgt (Rbasic_fun.Rabs delta)
+           (Rdefinitions.RbaseSymbolsImpl.Rmult (Rdefinitions.RbaseSymbolsImpl.Rplus tol rtol)
+              (Rdefinitions.Rminus (last r (Rdefinitions.IZR 0)) (hd (Rdefinitions.IZR 0) l))) ->
+         basis_matches_gen rtol tol {| b_order := p; b_knots := l ++ x :: r; b_per1 := per |}
+           {| b_order := p; b_knots := l ++ Rdefinitions.RbaseSymbolsImpl.Rplus x delta :: r; b_per1 := per |} false =
+         false.
+Proof. exact @matches_moved_knot_reported. Qed.
+Print Assumptions C17_matches_moved_knot_reported.
+
+Theorem C17_matches_default_rtol_accepts_1e_5 :
+  basis_matches qtol (qb 2 [0%Q; 0%Q; 1%Q; 2%Q; 2%Q]) (qb 2 [0%Q; 0%Q; 1.00001%Q; 2%Q; 2%Q]) false = true /\
+         basis_matches_gen 0%Q qtol (qb 2 [0%Q; 0%Q; 1%Q; 2%Q; 2%Q]) (qb 2 [0%Q; 0%Q; 1.00001%Q; 2%Q; 2%Q]) false =
+         false /\
+         basis_matches qtol (qb 2 [0%Q; 0%Q; 1%Q; 2%Q; 2%Q]) (qb 2 [0%Q; 0%Q; 1.0001%Q; 2%Q; 2%Q]) false = false.
+Proof. exact @ex_rtol_accepts. Qed.
+Print Assumptions C17_matches_default_rtol_accepts_1e_5.
+
+Theorem C17_matches_default_rtol_asymmetric :
+  basis_matches qtol (qb 2 [0%Q; 0%Q; 1%Q; 2%Q; 2%Q]) (qb 2 [0%Q; 0%Q; 1.00001000024%Q; 2%Q; 2%Q]) false = true /\
+         basis_matches qtol (qb 2 [0%Q; 0%Q; 1.00001000024%Q; 2%Q; 2%Q]) (qb 2 [0%Q; 0%Q; 1%Q; 2%Q; 2%Q]) false = false.
+Proof. exact @ex_asymmetric. Qed.
+Print Assumptions C17_matches_default_rtol_asymmetric.
+
+Theorem C17_orient_basis_matches_eq :
+  forall (F : Type) (H : Num F) (ktol : F) (a b : basis F) (rev : bool),
+         neqb (knots_dt (b_knots a)) n0 = false ->
+         neqb (knots_dt (b_knots b)) n0 = false -> Orient.basis_matches ktol a b rev = basis_matches ktol a b rev.
+Proof. exact @orient_basis_matches_eq. Qed.
+Print Assumptions C17_orient_basis_matches_eq.
 
